@@ -6,13 +6,14 @@
  * The contract (TRUSTED, stated once here):
  *   get_size()          returns the tracked size g_fsize.
  *   write_at(off,buf,n) requires r_ok(buf,n). Either fails (any negative
- *                       code; tracked size unchanged, g_fault set) or returns
+ *                       code; tracked size unchanged, g_fault set; always
+ *                       when off+n would exceed C14_FILE_MAX) or returns
  *                       0 and the tracked size becomes max(size, off+n) -
  *                       exactly what stdio_write_at() in lib/sqfs/src/io/file.c
  *                       does with file->size.
  *   truncate(sz)        either fails (negative, size unchanged, g_fault set)
  *                       or returns 0 and the tracked size becomes sz.
- *   read_at             not provided here (harnesses that read define it).
+ *   read_at             fails or delivers arbitrary bytes; no effect on the file.
  *
  * The C14 call-site obligations are asserted *by the contract*, so they are
  * checked at every call the function under test issues:
@@ -40,7 +41,20 @@
 #error "define C14_SITE before including c14_env.h"
 #endif
 
+#if defined(C14_DFCC) && !defined(VERIF_REPLAY)
+/* goto-instrument --dfcc gives every body-less function the body
+ * "assert(false); assume(false)"; __CPROVER_cover is one (cbmc only treats it
+ * specially under --cover). Give it an empty body so that cover points do
+ * not cut the paths; cbmc --cover still instruments the call sites. */
+void __CPROVER_cover(_Bool c)
+{
+	(void)c;
+}
+#endif
+
 #define C14_SUPER_SZ ((sqfs_u64)sizeof(sqfs_super_t))
+/* the OS refuses to grow a file beyond this (EFBIG; off_t is 63 bit) */
+#define C14_FILE_MAX ((sqfs_u64)1 << 62)
 
 static sqfs_u64 g_fsize;	/* tracked size of the output file */
 static unsigned g_seq;		/* sequence counter over environment events */
@@ -50,6 +64,7 @@ static bool g_fault;		/* an environment call reported failure */
 static sqfs_u64 g_w_off;	/* last data write: offset, length, sequence */
 static size_t g_w_len;
 static unsigned g_w_seq;
+static sqfs_u64 g_t_size;	/* last truncate: requested size */
 static sqfs_u8 g_w_witness;	/* byte g_w_k of the last data write */
 static size_t g_w_k;		/* witness index, chosen by the harness */
 
@@ -79,7 +94,8 @@ int c14_write_at(sqfs_file_t *f, sqfs_u64 off, const void *buf,
 	if (g_w_k < n)
 		g_w_witness = ((const sqfs_u8 *)buf)[g_w_k];
 
-	if (verif_nd_bool("write_at.fail") || n > UINT64_MAX - off) {
+	if (verif_nd_bool("write_at.fail") || off > C14_FILE_MAX ||
+	    n > C14_FILE_MAX - off) {
 		g_fault = true;
 		return c14_error_code("write_at.err");
 	}
@@ -92,13 +108,41 @@ int c14_truncate(sqfs_file_t *f, sqfs_u64 sz)
 {
 	(void)f;
 	g_seq += 1;
+#ifdef C14_TRUNC_WITNESS_GUARD
+	/* witness form (DESIGN 2.4): the harness assumed the representation
+	 * invariant for ONE arbitrary index; the obligation is checked for the
+	 * executions in which that index is the one used here - the solver
+	 * quantifies over the index, so every execution is covered */
+	VERIF_ASSERT(!(C14_TRUNC_WITNESS_GUARD) || sz >= C14_SUPER_SZ,
+		     "C14.truncate_keeps_super." C14_SITE);
+#else
 	VERIF_ASSERT(sz >= C14_SUPER_SZ, "C14.truncate_keeps_super." C14_SITE);
+#endif
 	g_ntrunc += 1;
+	g_t_size = sz;
 	if (verif_nd_bool("truncate.fail")) {
 		g_fault = true;
 		return c14_error_code("truncate.err");
 	}
 	g_fsize = sz;
+	return 0;
+}
+
+/* read_at: requires w_ok(buf,n); fails, or fills buf with arbitrary bytes
+ * (one witness byte is given a value; the rest is whatever it was - the
+ * over-approximation of DESIGN 2.4). Never changes the file. */
+int c14_read_at(sqfs_file_t *f, sqfs_u64 off, void *buf, size_t n)
+{
+	size_t k = verif_nd_size("read_at.k");
+
+	(void)f; (void)off;
+	VERIF_ASSERT(VERIF_W_OK(buf, n), "C14.env.read_at.buffer_writable");
+	if (verif_nd_bool("read_at.fail")) {
+		g_fault = true;
+		return c14_error_code("read_at.err");
+	}
+	if (k < n)
+		((sqfs_u8 *)buf)[k] = verif_nd_u8("read_at.byte");
 	return 0;
 }
 
@@ -121,6 +165,7 @@ void c14_file_destroy(sqfs_object_t *obj)
 }
 
 static sqfs_file_t g_file;
+static unsigned g_obj_destroyed;
 
 /* file object in an arbitrary state of the append phase: a provisional
  * superblock is in place, i.e. tracked size >= sizeof(super) */
@@ -129,12 +174,26 @@ static void c14_file_init(sqfs_u64 size)
 	g_file.base.refcount = 1;
 	g_file.base.destroy = c14_file_destroy;
 	g_file.base.copy = NULL;
-	g_file.read_at = NULL;
+	g_file.read_at = c14_read_at;
 	g_file.write_at = c14_write_at;
 	g_file.get_size = c14_get_size;
 	g_file.truncate = c14_truncate;
 	g_file.get_filename = NULL;
+	/* ghost state is initialised explicitly: goto-instrument's contract
+	 * passes make statics nondeterministic */
 	g_fsize = size;
+	g_seq = 0;
+	g_nwrite = 0;
+	g_ntrunc = 0;
+	g_fault = false;
+	g_w_off = 0;
+	g_w_len = 0;
+	g_w_seq = 0;
+	g_w_witness = 0;
+	g_t_size = 0;
+	g_file_destroyed = 0;
+	g_file_destroy_seq = 0;
+	g_obj_destroyed = 0;
 	g_w_k = verif_nd_size("w_k");
 }
 
@@ -163,7 +222,6 @@ sqfs_s32 c14_do_block(sqfs_compressor_t *cmp, const sqfs_u8 *in,
 }
 
 /* generic destroy hook for objects the harness owns */
-static unsigned g_obj_destroyed;
 void c14_obj_destroy(sqfs_object_t *obj)
 {
 	(void)obj;
